@@ -196,7 +196,8 @@ for site in sites:
             break
         if r.returncode == 2:
             logs[p]["tail"] = (r.stdout + r.stderr)[-300:]
-    rec["outcome"] = f"check:{caught}" if caught else "SURVIVED"
+    crashed = [p for p, l in logs.items() if l["rc"] == 2]
+    rec["outcome"] = f"check:{caught}" if caught else ("CRASH:" + ",".join(crashed) if crashed else "SURVIVED")
     rec["checks"] = logs
     rec["seconds"] = round(time.time() - t0)
     results.append(rec)
